@@ -215,6 +215,23 @@ FrameOK(R) ==
         /\ Changed(pre.attest, post.attest) \subseteq {AttId(a.a, a.p)}
         /\ post = [pre EXCEPT !.attest = post.attest]
 
+\* a lease / bid action names ONE lease: unless it exhausts the deployment's escrow (the overdraft cascade legitimately
+\* closes everything beneath the deployment), no other lease, no other lease's payment stream (state, paid-out amount)
+\* and no bid outside the named order changes, and a withdrawal pays nobody but the named lease's provider
+LeaseActsTouchOnlyTheirLease(R) ==
+  LET pre == R.pre  post == R.post  a == R.act IN
+  (a.act \in {"WithdrawLease", "CloseLease", "CloseBid", "CreateLease"} /\ R.ok) =>
+    LET l   == BId(a.t, a.d, a.g, a.o, a.p)
+        oid == OId(a.t, a.d, a.g, a.o)
+        k   == DAcc(ActDid(a))
+        cascade == Has(pre.eacct, k) /\ pre.eacct[k].state = "open" /\ post.eacct[k].state # "open"
+    IN cascade \/
+       /\ \A x \in DOMAIN pre.lease : x # l => post.lease[x] = pre.lease[x]
+       /\ \A x \in DOMAIN pre.epay : x # l => /\ post.epay[x].state = pre.epay[x].state
+                                              /\ post.epay[x].withdrawn = pre.epay[x].withdrawn
+       /\ \A x \in DOMAIN pre.bid : (x # l /\ pre.bid[x].oid # oid) => post.bid[x] = pre.bid[x]
+       /\ a.act = "WithdrawLease" => \A x \in (DOMAIN pre.bank) \ {ESCROW, a.p} : post.bank[x] = pre.bank[x]
+
 \* trace only: the message's own GetSigners() is exactly the party the protocol assigns
 SignerOK(R) == IsTx(R) => R.signers = <<RequiredSigner(R.act)>>
 
@@ -326,6 +343,6 @@ Inv_C05(S) == MoneyFollowsLifecycle(S)
 Step_C01(R) == CoinsMoveOnlyViaEscrow(R)
 Step_C02(R) == StepNoOvercharge(R) /\ NeverTransfersMoreThanDeposited(R) /\ OverdraftDistribution(R)
 Step_C03(R) == ClosedNeverChanges(R) /\ CloseTakesEffect(R)
-Step_C06(R) == FrameOK(R)
+Step_C06(R) == FrameOK(R) /\ LeaseActsTouchOnlyTheirLease(R)
 Step_C08(R) == BidAdmission(R) /\ UpdateGuard(R) /\ AttributeRecordsFollowTransactions(R)
 =============================================================================
